@@ -245,6 +245,11 @@ func rulePDF417Arith(c *Ctx) {
 								cond := cAnd(n.ReachCond(fn, hdr.Succs[0], pred), n.EdgeCond(pred, b))
 								imp, _, w := CondRelation(cond, MustRefCond("r >= 2 && r <= 30"))
 								c.Check(RD, "pdf417.calcDimensions/take-within-limits", p.Pos(), imp, "a candidate is taken only when 2 <= rows <= 30", cond.String()+" "+w)
+								// ... and both limits themselves can be taken (the condition is not refutable at rows = 2 and rows = 30)
+								for _, lim := range []string{"r == 2", "r == 30"} {
+									unsat, _, _ := CondRelation(cAnd(cond, MustRefCond(lim)), cFalse)
+									c.Check(RD, "pdf417.calcDimensions/limit-reachable/"+strings.ReplaceAll(lim, " == ", "="), p.Pos(), !unsat, "a candidate with "+lim+" can be taken (limits inclusive)", cond.String())
+								}
 							}
 						}
 					}
